@@ -476,6 +476,36 @@ def r5(cx):
         if ec and ec[0]['k'] == 'discr' and 'BinaryOperator' in (ec[0].get('ty') or ''):
             op_switches[u] = ec[1]
     cx.require(op_switches, 'apply_binary no longer dispatches on the BinaryOperator')
+    # `operator == Assign` / `operator != Assign` (possibly materialised: `let is_compound = operator != Assign; if is_compound`)
+    # is a test of the operator too: for a given operator its truth is known, so only the matching edge is followed
+    op_tests = {}
+    for u in sorted(body2.live_blocks()):
+        ec = Q.edge_condition(F, body2, du2, u)
+        if not ec or u in op_switches:
+            continue
+        org, flip = ec[0], False
+        for _ in range(3):
+            if org.get('k') == 'unop' and org['rv'].get('op') == 'Not':
+                org, flip = du2.origin(org['rv']['o']), not flip
+        if org.get('k') != 'call' or not Q.callee_is(org['t'], [re.compile(r'PartialEq.*::(eq|ne)$')]) or len(org['t']['a']) != 2 or \
+                not all(x.lstrip('&').strip().endswith('ast::BinaryOperator') for x in org['t'].get('at', ['?'])):
+            continue
+        consts = []
+        for a in org['t']['a']:
+            o = du2.origin(a)
+            if o.get('k') == 'ref':
+                o = du2.origin_place(o['pl'])
+            if o.get('k') == 'agg' and o['rv'].get('ak') == 'adt' and (o['rv'].get('adt') or '').endswith('ast::BinaryOperator'):
+                consts.append(o['rv']['variant'])
+            elif o.get('k') == 'const' and re.search(r'BinaryOperator::(\w+)', str(o['o'].get('c') or '')):
+                consts.append(re.search(r'BinaryOperator::(\w+)', str(o['o'].get('c'))).group(1))
+            else:
+                consts.append(None)
+        if sum(1 for c in consts if c is not None) != 1:
+            continue
+        is_eq = Q.callee_is(org['t'], [re.compile(r'PartialEq.*::eq$')])
+        op_tests[u] = ([c for c in consts if c is not None][0], is_eq != flip, ec[1])
+        cx.site('apply_binary: test operator %s %s at %s' % ('==' if is_eq != flip else '!=', op_tests[u][0], body2.loc(body2.term(u))))
 
     def blocks_calling(name):
         out = {blk for blk, t in body2.calls() if pp.callee(t) == EVAL + name}
@@ -493,6 +523,10 @@ def r5(cx):
         for u, labels in op_switches.items():
             for tgt, labs in labels.items():
                 if ('variant', v) not in labs:
+                    removed.add((u, tgt))
+        for u, (cst, is_eq, labels) in op_tests.items():
+            for tgt, labs in labels.items():
+                if ('bool', (v == cst) == is_eq) not in labs:
                     removed.add((u, tgt))
         got = tuple(bool(tg) and Q.shortest_path_flags(F, body2, du2, 0, tg, removed_edges=removed) is not None
                     for tg in (targets['assign'], targets['binary_result'], targets['expand_variable']))
@@ -512,8 +546,14 @@ def r5(cx):
 @RS.rule('C03.R6', 'K-GUARD', 'short circuit: the right operand of || and &&, and the unselected branch of ?:, are not evaluated')
 def r6(cx):
     F = cx.F
-    body = F.body(EVAL + 'eval')
+    # private helpers of the module are analysed in place (`eval_short_circuit(children, rhs_len, operator, ..)` holding the
+    # || and && arms is the same evaluator); eval itself is recursive and public, so its recursive calls stay calls
+    from facts import same_module_private
+    _acc = same_module_private(F, EVAL + 'eval')
+    body = F.inlined(F.body(EVAL + 'eval'), accept=lambda c: _acc(c) and c in F.bodies and bool(Q.find_calls(F.bodies[c], [EVAL + 'eval'])))
     cx.fn(body.fn)
+    for h in getattr(body, 'inlined_from', None) or []:
+        cx.fn(h)
     du = Q.DefUse(body)
     rec = [(b, t) for b, t in Q.find_calls(body, [EVAL + 'eval'])]
     by_arg = {}
@@ -525,43 +565,86 @@ def r6(cx):
     ne = [re.compile(r'PartialEq.*::ne$')]
     eq = [re.compile(r'PartialEq.*::eq$')]
 
-    def lhs_is_zero_on(org, lab):
-        """Truth of `lhs == 0` on a dominating edge of a test of lhs against Value::Integer(0); None if not such a test."""
-        if org['k'] != 'call' or not Q.callee_is(org['t'], ne + eq):
-            return None
-        return (not lab[1]) if Q.callee_is(org['t'], ne) else lab[1]
+    # The clause is decided per operator, on the CFG restricted to the edges that operator takes at every test of a
+    # BinaryOperator (match arm patterns of eval, `match operator {..}` / `operator == ..` inside a helper): the shape of the
+    # dispatch (one arm per operator, a merged arm with a materialised `decided` flag, an extracted helper) is free.
+    op_switches = {}
+    for u in sorted(body.live_blocks()):
+        ec = Q.edge_condition(F, body, du, u)
+        if ec and ec[0]['k'] == 'discr' and (ec[0].get('ty') or '').rstrip('& ').endswith('ast::BinaryOperator'):
+            op_switches[u] = ec[1]
+    cx.require(op_switches, 'eval no longer dispatches on the BinaryOperator')
+    switches = {}
+    for u in sorted(body.live_blocks()):
+        ec = Q.edge_condition(F, body, du, u)
+        if ec is not None:
+            switches[u] = ec
 
-    def operator_after(blk):
-        """The BinaryOperator constant given to binary_result on the path that continues from blk (identifies the arm)."""
-        for cb, ct in Q.find_calls(body, [EVAL + 'binary_result']):
-            if body.dominates(blk, cb) and len(ct['a']) > 2:
-                org = du.origin(ct['a'][2])
-                if org['k'] == 'agg' and org['rv'].get('ak') == 'adt':
-                    return org['rv']['variant']
-                if org['k'] == 'const':
-                    c = str(org['o'].get('c') or '')
-                    for v in ('LogicalOr', 'LogicalAnd'):
-                        if v in c:
-                            return v
+    def lhs_is_zero_on(org, lab, live, depth=6):
+        """Truth of `lhs == 0` implied by a test (origin, label) of lhs against Value::Integer(0), possibly negated and/or
+        materialised in bool locals (`let t = lhs != 0; let decided = match operator { Or => t, _ => !t }; if !decided`):
+        a bool local is followed through its only definition that is live for the operator under analysis. None if the
+        test is not such a test."""
+        while depth > 0:
+            depth -= 1
+            org, lab = Q.peel_not(du, org, lab)
+            if not lab or lab[0] != 'bool':
+                return None
+            if org['k'] == 'call':
+                if not Q.callee_is(org['t'], ne + eq):
+                    return None
+                return (not lab[1]) if Q.callee_is(org['t'], ne) else lab[1]
+            if org['k'] != 'place' or org['pl'].get('p') or body.locals[org['pl']['l']]['ty'] != 'bool':
+                return None
+            defs = [d for d in du.defs.get(org['pl']['l'], []) if d[0] in live]
+            if len(defs) != 1:
+                return None
+            blk, idx, node = defs[0]
+            if idx == 't':
+                org = {'k': 'call', 't': node, 'b': blk}
+            elif node['k'] == 'assign' and node['rv']['k'] == 'use':
+                o = node['rv']['o']
+                if 'cp' not in o and 'mv' not in o:
+                    return None
+                org = du.origin(o)
+            elif node['k'] == 'assign' and node['rv']['k'] == 'unop' and node['rv'].get('op') == 'Not':
+                org, lab = du.origin(node['rv']['o']), ('bool', not lab[1])
+            else:
+                return None
         return None
+
     guarded = {}
-    for b, t in by_arg['rhs_ast']:
-        conds = Q.dominating_conditions(F, body, du, b)
-        zs = [lhs_is_zero_on(org, lab) for org, lab, e in conds]
-        zs = [z for z in zs if z is not None]
-        op = operator_after(b)
-        cx.site('eval: eval(rhs_ast) at %s in the %s arm, reached with lhs %s' % (body.loc(t), op, {True: '== 0', False: '!= 0'}.get(zs[-1]) if zs else 'untested'))
-        if op in ('LogicalOr', 'LogicalAnd'):
-            guarded[op] = zs[-1] if zs else None
+    for op in ('LogicalOr', 'LogicalAnd'):
+        removed = {(u, tgt) for u, labels in op_switches.items() for tgt, labs in labels.items() if ('variant', op) not in labs}
+        live = body.reachable(0, removed_edges=removed)
+        verdicts = []
+        for b, t in by_arg['rhs_ast']:
+            if b not in live:
+                continue
+            zs = []
+            for u, (org, labels) in sorted(switches.items()):
+                if u not in live:
+                    continue
+                for tgt, labs in labels.items():
+                    if (u, tgt) in removed or b in body.reachable(0, removed_edges=removed | {(u, tgt)}):
+                        continue
+                    for lab in labs:
+                        z = lhs_is_zero_on(org, lab, live)
+                        if z is not None:
+                            zs.append(z)
+            cx.site('eval: eval(rhs_ast) at %s is reached for %s with lhs %s' % (body.loc(t), op, {True: '== 0', False: '!= 0'}.get(zs[-1]) if zs else 'untested'))
+            verdicts.append(zs[-1] if zs and len(set(zs)) == 1 else (None if not zs else 'both'))
+        if verdicts:
+            guarded[op] = verdicts
     for op, want_zero, sym in (('LogicalOr', True, '||'), ('LogicalAnd', False, '&&')):
         if op not in guarded:
             cx.violation(body.fn, 'short-circuit-missing:%s' % op, 'no dedicated evaluation of the right operand of %s was found' % sym, loc=body.loc(body.d))
-        elif guarded[op] is None:
+        elif any(v is None for v in guarded[op]):
             cx.violation(body.fn, 'short-circuit-missing:%s' % op, 'the right operand of %s is evaluated without a test of the left value' % sym,
                          loc=body.loc(body.d))
-        elif guarded[op] != want_zero:
+        elif any(v != want_zero for v in guarded[op]):
             cx.violation(body.fn, 'short-circuit-polarity:%s' % op, 'the right operand of %s is evaluated on the edge where the result is already '
-                         'decided (lhs %s 0)' % (sym, '==' if guarded[op] else '!='), loc=body.loc(body.d))
+                         'decided (lhs %s 0)' % (sym, '!=' if want_zero else '=='), loc=body.loc(body.d))
     # the early returns construct the constants 1 (for ||) and 0 (for &&)
     # ?: evaluates exactly one branch: a single eval(result_ast) whose argument is selected by a switch
     if len(by_arg['result_ast']) != 1 or 'then_ast' in by_arg or 'else_ast' in by_arg:
@@ -661,6 +744,48 @@ PANIC_OK = {
 }
 
 
+def _is_split_offset(body, t):
+    """The checked subtraction asserted by `t` is `<slice>.len() - n` and its difference is the `mid` argument of a split_at
+    call (and nothing else but that flows from it)."""
+    pl = Q.operand_place(t['cond'])
+    if pl is None:
+        return False
+    du = Q.DefUse(body)
+    d = du.single_def(pl['l'])
+    if d is None or d[1] == 't' or d[2]['k'] != 'assign' or d[2]['rv']['k'] != 'binop' or d[2]['rv'].get('op') != 'SubWithOverflow':
+        return False
+    ops = Q.rvalue_operands(d[2]['rv'])
+    src = du.origin(ops[0]) if ops else {'k': '?'}
+    if src.get('k') != 'call' or not Q.callee_is(src['t'], ['core::slice::<impl [T]>::len']):
+        return False
+    taint = Q.forward_taint(body, {pl['l']}, through_calls=[])
+    users = [(b, c) for b, c in body.calls() if any((Q.operand_place(a) or {}).get('l') in taint for a in c['a'])]
+    return bool(users) and all(pp.callee(c).endswith('::split_at') and len(c['a']) == 2 and
+                               (Q.operand_place(c['a'][1]) or {}).get('l') in taint and
+                               (Q.operand_place(c['a'][0]) or {}).get('l') not in taint for b, c in users)
+
+
+def _review_owner(F, fn, depth=2):
+    """The reviewed function a panic site in `fn` belongs to: `fn` itself, or - for a non-public function of the same module
+    whose every caller lies in ONE other function - that caller (followed `depth` levels): a block of a reviewed function
+    extracted into a private helper keeps the review of the function, and its sites count against the reviewed number."""
+    root = F.bodies[fn].root if fn in F.bodies else fn
+    reviewed = {k[0].split('::{closure')[0] for k in PANIC_OK}
+    while depth > 0 and root not in reviewed:
+        depth -= 1
+        sig = F.fns.get(root)
+        if sig is None or sig.get('vis') == 'pub':
+            break
+        callers = {b.root for b, blk, t in F.callers_of(lambda names, t: root in names) if b.root != root}
+        if len(callers) != 1:
+            break
+        caller = next(iter(callers))
+        if caller.rsplit('::', 1)[0] != root.rsplit('::', 1)[0]:
+            break
+        root = caller
+    return root if root in reviewed else None
+
+
 def _panic_sites(F):
     out = {}
     for body in F.bodies_in(['yash_arith::']):
@@ -669,6 +794,11 @@ def _panic_sites(F):
             kind = None
             if t['k'] == 'assert':
                 kind = 'assert:' + t['msg']
+                if t['msg'] == 'Overflow(Sub)' and _is_split_offset(body, t):
+                    # `xs.split_at(xs.len() - n)`: the subtraction underflows exactly when n > xs.len(), which is the
+                    # claim reviewed for the split_at site it feeds (counted below). With `n: &usize` the same
+                    # subtraction is a call of <usize as Sub<&usize>>::sub and never was a separate site.
+                    continue
             elif t['k'] == 'call':
                 for n in Q.callee_names(t):
                     m = re.search(r'(Option|Result)::<.*?>::(unwrap|expect|unwrap_err|expect_err)$', n)
@@ -699,6 +829,17 @@ def r8(cx):
                 base = rfn.split('::{closure')[0]
                 if rkind == kind and fn.startswith(base + '::'):
                     ok = val
+        if ok is None:
+            # ... and so does one moved into a private helper of the module that only the reviewed function calls; the sites
+            # of the helper and of the function together must not exceed the reviewed number
+            owner = _review_owner(F, fn)
+            if owner is not None and owner != fn and (owner, kind) in PANIC_OK:
+                ok = PANIC_OK[(owner, kind)]
+                locs = sorted(set(locs + sites.get((owner, kind), []) +
+                                  [l for (f2, k2), ls in sites.items() if k2 == kind and f2 not in (fn, owner) and (f2, kind) not in PANIC_OK
+                                   and _review_owner(F, f2) == owner for l in ls]))
+                cx.site('%s: %s counted with the reviewed sites of %s (private helper called from there only): %d in total'
+                        % (fn, kind, owner, len(locs)))
         if ok is None:
             cx.violation(fn, 'panic-site:%s' % kind, 'unreviewed panic-capable construct %s (%d site(s))' % (kind, len(locs)), loc=locs[0])
         elif len(locs) > ok[0]:
@@ -1234,7 +1375,10 @@ BINOP = 'yash_arith::ast::BinaryOperator'
          'evaluation of the right operand without converting the left result to a value - `x + (x=5)` and `+x + (x=5)` agree')
 def r15(cx):
     F = cx.F
-    body = F.inlined(F.main_body('yash_arith::eval::eval'))
+    # apply_binary is the sink whose operands are examined: it stays a call however small it gets
+    from facts import same_module_private
+    _acc = same_module_private(F, 'yash_arith::eval::eval')
+    body = F.inlined(F.main_body('yash_arith::eval::eval'), accept=lambda c: c != 'yash_arith::eval::apply_binary' and _acc(c))
     cx.fn(body.fn)
     du = Q.DefUse(body)
     variants = [v['name'] for v in F.adts[BINOP]['variants']]
